@@ -125,8 +125,7 @@ def check(ctx: Ctx) -> None:
                 n_sites += 1
                 _check_site(ctx, E, f, call, target)
     ctx.count('call_sites', n_sites)
-    if n_sites < 11:
-        raise AnalysisError(f'C08.R2: {n_sites} evaluation sites found, 13 were confirmed by hand (floor 11)')
+    ctx.need(not (n_sites < 11), f'C08.R2: {n_sites} evaluation sites found, 13 were confirmed by hand (floor 11)')
 
     # R3: boundaries
     for qn, seen_from in [('merchant_utils.normalize_merchant', 'parsers.parse_generic_csv (row handler)'),
